@@ -33,6 +33,7 @@ type spvConf struct {
 type spvAssn struct {
 	Signed bool      `json:"signed"`
 	Iss    string    `json:"iss"`
+	IssFmt string    `json:"issfmt"`
 	Confs  []spvConf `json:"confs"`
 	Auds   []string  `json:"auds"`
 	Time   string    `json:"time"`
@@ -294,6 +295,13 @@ func spvConcretise(v *spvVec, now time.Time, rng *rand.Rand) *spvCase {
 			NameID: sp(fmt.Sprintf("user%d@example.com", k+1)), Confs: confs,
 			NotBefore: inst(a.Cond, -time.Minute, -2*time.Hour), NotOnOrAfter: inst(a.Cond, time.Minute, -time.Hour), Audiences: auds,
 			AuthnInstant: tIn(0), SessionIndex: "s1", Attrs: []AttrSpec{{Name: "uid", Values: []string{fmt.Sprintf("u%d", k+1)}}}}
+		switch a.IssFmt {
+		case "absent":
+			as.IssuerFormat = sp("-")
+		case "other":
+			as.IssuerFormat = sp([]string{"urn:oasis:names:tc:SAML:1.1:nameid-format:unspecified", "urn:oasis:names:tc:SAML:2.0:nameid-format:persistent",
+				"urn:oasis:names:tc:SAML:2.0:nameid-format:transient", "urn:example:made-up-format", ""}[rng.Intn(5)])
+		}
 		if a.Signed {
 			as.SignWith = key("idp1")
 		}
